@@ -301,14 +301,16 @@ fn exec_direct_inner(store: &mut AnnotationStore, m: &Model, op: &Op) -> ExecRes
                 v.last().map(|h| h.as_usize())
             })
         }
-        Op::RemoveAnnotation { a } => {
-            let req: BuildItem<Annotation> = bi(&m.ann_target(a).req);
-            res(catch(|| store.remove_annotation(req)), |_| None)
-        }
-        Op::RemoveResource { r } => {
-            let req: BuildItem<TextResource> = bi(&m.res_target(r).req);
-            res(catch(|| store.remove_resource(req)), |_| None)
-        }
+        // removals are requested the way callers do it: an id as a string, a handle as a handle
+        // (a BuildItem hides from the library which of the two it was given)
+        Op::RemoveAnnotation { a } => match m.ann_target(a).req {
+            Req::Id(id) => res(catch(|| store.remove_annotation(id.as_str())), |_| None),
+            Req::Handle(h) => res(catch(|| store.remove_annotation(AnnotationHandle::new(h))), |_| None),
+        },
+        Op::RemoveResource { r } => match m.res_target(r).req {
+            Req::Id(id) => res(catch(|| store.remove_resource(id.as_str())), |_| None),
+            Req::Handle(h) => res(catch(|| store.remove_resource(TextResourceHandle::new(h))), |_| None),
+        },
         Op::RemoveAnnotationsOn { r } => {
             let req: BuildItem<TextResource> = bi(&m.res_target(r).req);
             res(
@@ -328,10 +330,10 @@ fn exec_direct_inner(store: &mut AnnotationStore, m: &Model, op: &Op) -> ExecRes
                 |_| None,
             )
         }
-        Op::RemoveDataset { s } => {
-            let req: BuildItem<AnnotationDataSet> = bi(&m.set_target(s).req);
-            res(catch(|| store.remove_dataset(req)), |_| None)
-        }
+        Op::RemoveDataset { s } => match m.set_target(s).req {
+            Req::Id(id) => res(catch(|| store.remove_dataset(id.as_str())), |_| None),
+            Req::Handle(h) => res(catch(|| store.remove_dataset(AnnotationDataSetHandle::new(h))), |_| None),
+        },
         Op::RemoveData { s, d, strict } => {
             let ts = m.set_target(s);
             let dreq = match ts.uid {
